@@ -67,7 +67,7 @@ pub fn spec(id: &str) -> Option<CheckSpec> {
             engine: "sysim",
             level: "exploration",
             owns: &["serializability", "content-integrity", "partial-record", "no-panic"],
-            runs: (8000, 150000),
+            runs: (6000, 150000),
             rule: "a run = 2-3 client processes (flavours drawn) each issuing one operation chosen to collide (same key / same content / reader of the key being written / remover of content being written) on a cold or warm cache; at every step the seeded scheduler (uniform random, PCT-style priorities, or enumerated for small cases) picks which parked client's filesystem system call executes; no faults. Accept iff some permutation of the operations applied to the reference model explains every observed result and the final cache state; I1 and 'every bucket line is a whole record' hold after every step. Non-trivial = >= 1 context switch between clients inside overlapping calls; distinct interleavings counted by hash of the (client, syscall) sequence",
             assumptions: A_SYS,
         },
@@ -139,6 +139,7 @@ struct Sched {
     pos: usize,
     prio: Vec<u64>,
     change_at: Vec<usize>,
+    run_len: usize,
 }
 
 impl Sched {
@@ -151,12 +152,17 @@ impl Sched {
         rng.shuffle(&mut prio);
         let d = s["depth"].as_u64().unwrap_or(2) as usize;
         let horizon = s["horizon"].as_u64().unwrap_or(60);
-        let change_at: Vec<usize> = (0..d).map(|_| rng.below(horizon) as usize).collect();
-        Sched { policy, rng, explicit: s["decisions"].as_array().map(|a| a.iter().map(|x| x.as_u64().unwrap_or(0) as usize).collect()).unwrap_or_default(), pos: 0, prio, change_at }
+        let mut change_at: Vec<usize> = (0..d).map(|_| rng.below(horizon) as usize).collect();
+        let mut explicit: Vec<usize> = s["decisions"].as_array().map(|a| a.iter().map(|x| x.as_u64().unwrap_or(0) as usize).collect()).unwrap_or_default();
+        if policy == "switch" {
+            explicit = s["order"].as_array().map(|a| a.iter().map(|x| x.as_u64().unwrap_or(0) as usize).collect()).unwrap_or_default();
+            change_at = s["points"].as_array().map(|a| a.iter().map(|x| x.as_u64().unwrap_or(0) as usize).collect()).unwrap_or_default();
+        }
+        Sched { policy, rng, explicit, pos: 0, prio, change_at, run_len: 0 }
     }
     /// choose among parked (client, tid), sorted; returns index
     fn choose(&mut self, parked: &[(usize, i32)], step: usize) -> usize {
-        if parked.len() == 1 {
+        if parked.len() == 1 && self.policy != "switch" {
             // still consume an explicit decision so replay lists stay aligned
             if self.policy == "explicit" {
                 self.pos += 1;
@@ -171,6 +177,21 @@ impl Sched {
                     Some(i) => i,
                     None => 0,
                 }
+            }
+            "switch" => {
+                // run order[k] for points[k] of its calls, then move on to the next preferred client
+                let cur = self.explicit.get(self.pos).cloned().unwrap_or(0);
+                let want = if let Some(i) = parked.iter().position(|p| p.0 == cur) { i } else { 0 };
+                let c = parked[want].0;
+                if c == cur {
+                    self.run_len += 1;
+                    let limit = self.change_at.get(self.pos).cloned().unwrap_or(usize::MAX);
+                    if self.run_len >= limit && self.pos + 1 < self.explicit.len() {
+                        self.pos += 1;
+                        self.run_len = 0;
+                    }
+                }
+                want
             }
             "random" => self.rng.idx(parked.len()),
             "pct" => {
@@ -211,7 +232,8 @@ pub fn exec_traced<'a>(ctx: &'a mut Ctx, sc: &'a Value, plan: &Value, tag: &str)
     std::fs::create_dir_all(&ctl).ok();
     let mut it = Interp::new(ctx, sc, tag);
     it.begin();
-    it.allow_tmp_leftovers = !sc["strict_tmp"].as_bool().unwrap_or(false);
+    let fault_on_unlink_or_kill = plan["faults"].as_array().map(|a| a.iter().any(|f| matches!(f["action"]["a"].as_str(), Some("kill_entry") | Some("kill_exit") | Some("short_kill")))).unwrap_or(false);
+    it.allow_tmp_leftovers = !sc["strict_tmp"].as_bool().unwrap_or(false) || fault_on_unlink_or_kill;
     it.strict_format = false;
     let prelude = sc["prelude"].as_array().cloned().unwrap_or_default();
     it.run_steps(&prelude, 0);
@@ -690,6 +712,9 @@ pub fn run_plan(ctx: &mut Ctx, sc: &Value, plan: &Value, tag: &str) -> Sub {
             }
         }
     }
+    if ex.sub.events.iter().any(|e| e.action != Action::Exec && matches!(e.sys.nr, SYS_UNLINK | SYS_UNLINKAT)) {
+        ex.it.allow_tmp_leftovers = true;
+    }
     take_viols(&mut ex.it, &mut ex.sub);
     // post phase: fresh fault-free processes (the persistent workers) audit, continue, retry
     let post = sc["post"].as_array().cloned().unwrap_or_default();
@@ -983,6 +1008,37 @@ pub fn run_scenario(ctx: &mut Ctx, _spec: &CheckSpec, sc: &Value, run_id: &str) 
                 }
             }
             *out.probes.entry("fault_points_enumerated".into()).or_insert(0) += faults.len() as u64;
+        }
+        "enumerate_switches" => {
+            // every schedule of two clients with at most two context switches: A runs a calls, B runs b calls, A finishes, B finishes
+            let base = json!({"faults":[],"schedule":{"policy":"switch","order":[0,1],"points":[1000000,1000000]}});
+            let census = run_plan(ctx, sc, &base, &format!("{run_id}c"));
+            let n0 = census.events.iter().filter(|e| e.client == 0).count();
+            let n1 = census.events.iter().filter(|e| e.client == 1).count();
+            let h = census.harness.clone();
+            absorb(&mut out, census, true);
+            if h.is_none() {
+                let cap = sc["plan"]["cap"].as_u64().unwrap_or(40) as usize;
+                let mut k = 0;
+                for first in [0usize, 1] {
+                    let (na, nb) = if first == 0 { (n0, n1) } else { (n1, n0) };
+                    for a in 0..=na.min(cap) {
+                        for b in 1..=nb.min(cap) {
+                            let plan = json!({"faults":[],"schedule":{"policy":"switch","order":[first, 1 - first, first, 1 - first],"points":[a.max(1), b, 1000000, 1000000],"skip_first": a == 0}});
+                            if a == 0 && first == 1 {
+                                continue; // same as starting with the other client
+                            }
+                            let sub = run_plan(ctx, sc, &plan, &format!("{run_id}s{k}"));
+                            k += 1;
+                            absorb(&mut out, sub, true);
+                            if out.harness.is_some() {
+                                return out;
+                            }
+                        }
+                    }
+                }
+                *out.probes.entry("two_switch_schedules_enumerated".into()).or_insert(0) += k as u64;
+            }
         }
         _ => {
             let plan = sc["plan"].clone();
@@ -1294,7 +1350,7 @@ fn gen_c15(rng: &mut Rng, _r: u64) -> Value {
            "plan":{"kind":"single","faults":faults,"schedule":{"policy":"first"}},"oracle":oracle,"lenient_after_fault":true})
 }
 
-fn gen_c07(rng: &mut Rng, _r: u64, tier: &str) -> Value {
+fn gen_c07(rng: &mut Rng, r: u64, tier: &str) -> Value {
     let keys = vec!["shared".to_string(), "other".to_string()];
     let vals = vec![json!({"seed": rng.next_u64() >> 1, "len": *rng.pick(&[0u64, 5, 300, 9000])}), json!({"seed": rng.next_u64() >> 1, "len": *rng.pick(&[6u64, 40, 2000])}), json!({"seed": rng.next_u64() >> 1, "len": 17})];
     let mut prelude = Vec::new();
@@ -1345,6 +1401,10 @@ fn gen_c07(rng: &mut Rng, _r: u64, tier: &str) -> Value {
     }
     observe.push(json!({"k":"api","op":"list","bin":"sync","mode":"sync"}));
     let policy = if tier == "quick" { *rng.pick(&["random", "random", "pct"]) } else { *rng.pick(&["random", "pct", "pct"]) };
+    if nclients == 2 && r % (if tier == "quick" { 250 } else { 40 }) == 7 {
+        return json!({"keys":keys,"vals":vals,"prelude":prelude,"clients":clients,"post":[],"final_observe":observe,"check_partial_records":true,
+               "plan":{"kind":"enumerate_switches","cap": if tier == "quick" { 24 } else { 60 }},"oracle":"serial"});
+    }
     json!({"keys":keys,"vals":vals,"prelude":prelude,"clients":clients,"post":[],"final_observe":observe,"check_partial_records":true,
            "plan":{"kind":"single","faults":[],"schedule":{"policy":policy,"seed":rng.next_u64() >> 1,"depth":rng.range(1,3),"horizon":rng.range(10,60)}},"oracle":"serial"})
 }
@@ -1492,7 +1552,12 @@ fn gen_abandon(rng: &mut Rng) -> Value {
     for fl in PURE {
         post.push(json!({"k":"audit","bin":fl.0,"mode":fl.1,"what":["metadata","read","list"]}));
     }
-    post.push(json!({"k":"tmp_empty"}));
+    if rng.chance(1, 8) {
+        // a commit that fails because of an I/O error is also a writer that is gone: one keyed write, one errno somewhere in it
+        let st = json!({"k":"api","op":"write","entry":*rng.pick(&["write","opts","create"]),"key":1,"val":0,"mode":f.1,"opts":{}});
+        return json!({"keys":keys,"vals":vals,"prelude":prelude,"clients":[{"bin":f.0,"steps":[st]}],"post":post,"strict_tmp":true,
+               "plan":{"kind":"enumerate","mode":"errno"},"oracle":"fault"});
+    }
     json!({"keys":keys,"vals":vals,"prelude":prelude,"clients":[{"bin":f.0,"steps":steps}],"post":post,"strict_tmp":true,
            "plan":{"kind":"single","faults":[],"schedule":{"policy":"first"}},"oracle":"strict"})
 }
